@@ -158,7 +158,8 @@ class DefUse:
                     if p is None or p['pr']:
                         continue
                     ty = fn.locals[p['l']]['ty']
-                    if ty.startswith('&mut') or ty.startswith('*mut') or 'RefCell' in ty or 'Mutex' in ty or ('Mut' in ty and "<'_" in ty):
+                    if ty.startswith('&mut') or ty.startswith('*mut') or (ty.startswith('&') and ('RefCell' in ty or 'Mutex<' in ty or 'RwLock<' in ty or 'Cell<' in ty)) \
+                            or (not ty.startswith('&') and 'Mut<' in ty and "<'_" in ty and not ty.startswith('std::result::Result')):
                         assigns.append(({'l': p['l'], 'pr': [{'k': 'deref'}]}, uses, at, None))
         # points-to fixpoint
         changed = True
@@ -211,7 +212,8 @@ class DefUse:
                 continue
             seen.add(u)
             l, path, deref = u
-            locs.add(l)
+            if deref != 'addr':
+                locs.add(l)
             if 1 <= l <= self.fn.argc:
                 atoms.add(Atom(('arg', l)))
             # the local's own value (pointer identity for deref reads)
